@@ -308,6 +308,8 @@ class ProgGen:
         self.n_names = 0
         self.refs: dict[str, dict] = {}
         self.cpd_used = False
+        self.pulse_fn = None   # optional override: (rng, channel spec, phase) -> pulse spec
+        self.dmm_wf_fn = None  # optional override: (rng, channel spec, weights) -> waveform spec
 
     def _refs_equal(self, c: dict) -> bool:
         d = self.refs.get(c["basis"], {})
@@ -460,7 +462,10 @@ class ProgGen:
             return {"op": k, "qubits": t[0] if len(t) == 1 and r.random() < 0.5 else t, "ch": n}
         if k in ("add", "estimate_added_delay"):
             n = pick(r, self._pulse_chans(False))
-            p = gen_pulse(r, self.chans[n]["spec"], phase=self._phase(n), big=self.big)
+            if self.pulse_fn is not None:
+                p = self.pulse_fn(r, self.chans[n]["spec"], self._phase(n))
+            else:
+                p = gen_pulse(r, self.chans[n]["spec"], phase=self._phase(n), big=self.big)
             return self._protocol({"op": k, "pulse": p, "ch": n})
         if k == "add_eom_pulse":
             n = pick(r, self._pulse_chans(True))
@@ -474,6 +479,8 @@ class ProgGen:
         if k == "add_dmm_detuning":
             n = pick(r, [n for n, c in self.chans.items() if c["dmm"] and not c.get("slm_wait")])
             c = self.chans[n]
+            if self.dmm_wf_fn is not None:
+                return self._protocol({"op": k, "wf": self.dmm_wf_fn(r, c["spec"], c["weights"]), "ch": n})
             lo = dmm_floor(c["spec"], c["weights"])
             d = gen_duration(r, c["spec"], self.big)
             return self._protocol({"op": k, "wf": gen_wf(r, d, lo, 0.0), "ch": n})
